@@ -22,6 +22,7 @@ CastSound(e) == e.cast => (e.dyn[e.kidx + 1] /\ e.castSame)
 SelfFound(e) == e.self => (e.findk = e.kidx /\ e.cast)
 Pair == /\ IsEvent("pair")
         /\ FindSound(Ev, Ev.find) /\ FindSound(Ev, Ev.findk) /\ CastSound(Ev) /\ SelfFound(Ev)
+        /\ Ev.overloads_agree                       \* the const overloads and rfind_pdu hand back the same node (so FindSound covers them)
         /\ UNCHANGED dummy
 Next == Pair
 Spec == Init /\ [][Next]_vars
